@@ -289,6 +289,32 @@ namespace trk
         ~Use() { cur() = prev; }
     };
 
+    // ------------------------------------------------------------ element constructors that fail on demand
+    struct Boom // thrown by the k-th constructing (non-move) Tracked constructor after arm_throw(k)
+    {
+    };
+    inline int &throw_countdown()
+    {
+        static int n = -1; // -1: never
+        return n;
+    }
+    inline void arm_throw(int k) { throw_countdown() = k; }
+    inline bool disarm_throw() // true if the exception was NOT delivered
+    {
+        bool pending = throw_countdown() > 0;
+        throw_countdown() = -1;
+        return pending;
+    }
+    inline void maybe_throw()
+    {
+        int &n = throw_countdown();
+        if (n > 0 && --n == 0)
+        {
+            n = -1;
+            throw Boom();
+        }
+    }
+
     // ------------------------------------------------------------ element type
     struct Tracked
     {
@@ -303,6 +329,7 @@ namespace trk
         Tracked() : Tracked(0) {}
         Tracked(int v)
         {
+            maybe_throw(); // before anything is registered: the slot stays what it was
             Registry *r = cur();
             if (r && !r->on_construct(this))
                 return;
@@ -318,6 +345,7 @@ namespace trk
         Tracked(const Tracked &o)
         {
             int v = o.peek("copy construction");
+            maybe_throw();
             Registry *r = cur();
             if (r && !r->on_construct(this))
                 return;
